@@ -1,5 +1,6 @@
 import HdVerif.Proofs.PixelFlags
 import HdVerif.Proofs.PixelPipeline
+import HdVerif.Proofs.PixelTie
 import HdVerif.Generated.T6g
 import HdVerif.Generated.T6i
 /-! # C06  Pixel transforms follow the DICOM pipeline and the tri-state flags
@@ -921,6 +922,66 @@ theorem counterexample_linear_width_one :
       ≠ ref { modality := .none, voi := .window .linear (21/2) 1, rwvm := .none, imin := 0, imax := 255, lo := 0, hi := 1 }
         ⟨false, false, true, false, false, false⟩ 11 := by
   decide +kernel
+
+/-! ## Tie: the hand-written model uses the expressions of the current source (bridges, `Proofs/PixelTie.lean`) -/
+
+/-- **T6j**: `stageOutcome` = flag block (T6a) followed by the regenerated guards of the three searches, of the
+colour-manager search and the four "required but missing" refusals, on all 46 656 cells. -/
+theorem tie_stageOutcome_guards (fl : Flags) (ct : CType) (p : Present) :
+    stageOutcome fl ct p = PixelTie.stageOutcomeGen fl ct p := by
+  obtain ⟨rw, mod, voi, pal, icc, pres⟩ := fl
+  obtain ⟨a, b, c, d, e⟩ := p
+  exact PixelTie.stageOutcome_uses_source_guards rw mod voi pal icc pres ct a b c d e
+
+/-- **T6k**: the slope / intercept branch of `applyEff` = regenerated range test + regenerated affine step -/
+theorem tie_applyEff_affine (lo hi a b : Rat) (chk : Option (Rat × Rat)) (s : Int) :
+    applyEff lo hi (.affine a b chk) s =
+      (match chk with
+       | some (first, last) =>
+         match callRangeRefused first last (s : Rat) with
+         | .ok true => .error .value
+         | .ok false => (match callAffine (s : Rat) a b with | .ok y => .ok (.val y) | .error e => .error e)
+         | .error e => .error e
+       | none => match callAffine (s : Rat) a b with | .ok y => .ok (.val y) | .error e => .error e) :=
+  PixelTie.applyEff_affine_uses_source lo hi a b chk s
+
+/-- **T6k**: `applyEff` dispatches in the order of the source's if / elif chain and hands `apply_lut` /
+`apply_voi_window` the stored attributes -/
+theorem tie_applyEff_branch (lo hi : Rat) (e : Eff) (s : Int) :
+    callBranch (PixelTie.effBranch e == 1) (PixelTie.effBranch e == 2) (PixelTie.effBranch e == 3) = .ok (PixelTie.effBranch e) ∧
+    (∀ first data clip, e = .lut first data clip → applyEff lo hi e s = applyLut data first clip s) ∧
+    (∀ fn c w inv, e = .window fn c w inv → applyEff lo hi e s = windowOut fn c w lo hi inv (s : Rat)) :=
+  PixelTie.applyEff_branch_uses_source lo hi e s
+
+/-- **T6m**: the datasets the model searches for a frame are those of the source, in its order, with its shared flags -/
+theorem tie_search_order {α} (pl : Placed α) (f : Nat) (own : Option α) (h : pl.perFrame[f]? = some own) :
+    pl.candidates f = datasetOrder.map fun ks => (PixelTie.pickDataset pl own ks.1, ks.2) :=
+  PixelTie.candidates_follow_source_order pl f own h
+
+/-- **T6m**: within one dataset the VOI information is taken in the source's order (table before window values) -/
+theorem tie_voi_within_dataset {l w} (luts : Option l) (win : Option w) :
+    voiItem luts win = PixelTie.firstSome (voiWithinDataset.map fun k => if k == "lut" then luts.map Sum.inl else win.map Sum.inr) :=
+  PixelTie.voiItem_follows_source_order luts win
+
+/-- **T6n**: `numberOfEntries` = the regenerated `LUT.number_of_entries` (0 means 2^16, constant from the source) -/
+theorem tie_numberOfEntries (ds : LutDs) :
+    numberOfEntries ds = (match descr ds 0 with | .ok v => lutNumberOfEntries v | .error e => .error e) :=
+  PixelTie.numberOfEntries_uses_source ds
+
+/-- **T6n**: `lutInit` refuses what the admission tests of `LUT.__init__` refuse and stores their entry count -/
+theorem tie_lutInit (first : Int) (bits : Nat) (data : List Nat) (hb : bits = 8 ∨ bits = 16) :
+    lutInit first bits data =
+      (match lutInitCheck first (data.length : Int) with
+       | .error e => .error e
+       | .ok d0 => .ok ⟨[d0, first, (bits : Int)],
+           encodeEntries bits data ++ (if bits = 8 ∧ data.length % 2 = 1 then [0] else [])⟩) :=
+  PixelTie.lutInit_uses_source first bits data hb
+
+/-- non-vacuity of the bridges: a negative intercept is added (the step a careless `> 0` test would drop), a
+per-frame item is searched first -/
+example : callAffine 7 1 (-3) = .ok 4 ∧ callRangeRefused 0 5 6 = .ok true ∧ lutNumberOfEntries 0 = .ok 65536 ∧
+    lutInitCheck 0 65536 = .ok 0 := by decide +kernel
+example : (⟨some 1, some 2, [some 3]⟩ : Placed Nat).candidates 0 = [(some 3, false), (some 2, true), (some 1, true)] := by decide
 
 /-! ## Non-vacuity: concrete inputs meeting the hypotheses (evaluated in the kernel) -/
 
